@@ -390,6 +390,17 @@ pub fn c13_workloads(thorough: bool) -> Vec<(Workload, usize)> {
         w.horizon_ms = 40_000;
         v.push((w, if thorough { b.max(2) } else { 1 }));
     }
+    // partially reliable traffic (abandoned chunks, FORWARD TSN and its retransmission) under the
+    // same wire rules
+    for (mut w, b) in c12_workloads(false).into_iter().filter(|(w, _)| {
+        w.name.starts_with("F-") && (thorough || w.name == "F-PU1-frag-then-traffic-tsnA<tsnB-drop2" || w.name == "F-PO1-frag-then-traffic-tsnA>tsnB")
+    }) {
+        w.record_wire = true;
+        w.linger_ms = 0;
+        w.horizon_ms = 40_000;
+        w.name = format!("PR:{}", w.name);
+        v.push((w, if thorough { b.max(2) } else { b }));
+    }
     // small receive windows with a bulk transfer; SACKs held back force zero window
     for (rwnd, total) in [(4096usize, 24_000usize), (8192, 30_000), (16 * 1024, 60_000), (64 * 1024, 200_000)] {
         let mut w = wl(&format!("Z-rwnd{rwnd}-bulk{total}"), vec![ChanSpec::reliable_ordered(0)], (0..(total / 4000)).map(|i| m(A, 0, 0, i as u64, 4000)).collect());
@@ -409,7 +420,7 @@ pub fn c13_workloads(thorough: bool) -> Vec<(Workload, usize)> {
             // single fault exposes (see known_findings.json, C13 fixed entries)
             let mut w2 = w.clone();
             w2.name = format!("{}-drop+delay+burst-b2", w.name);
-            w2.faults = vec![Fault::Drop, Fault::Delay(3), Fault::DropBurst(2), Fault::DropBurst(5)];
+            w2.faults = vec![Fault::Drop, Fault::Delay(3), Fault::DropBurst(5)];
             v.push((w2, 2));
         }
         v.push((w, if thorough && rwnd <= 8192 { 2 } else { 1 }));
@@ -497,6 +508,7 @@ pub fn c13_monitor(w: &Workload, obs: &Obs) -> Vec<Verdict> {
     let mut gap_acked_at: [BTreeMap<u32, u64>; 2] = [BTreeMap::new(), BTreeMap::new()];
     let mut init_rwnd: [Option<u32>; 2] = [None, None]; // window the peer announced in INIT/INIT-ACK
     let mut all_acked_since: [Option<u64>; 2] = [None, None];
+    let mut fwd_after_quiescence: [u32; 2] = [0, 0];
     let total_sub: [usize; 2] = [
         obs.submitted.iter().filter(|(k, _)| k.0 == Side::A).map(|(_, v)| v.len()).sum(),
         obs.submitted.iter().filter(|(k, _)| k.0 == Side::B).map(|(_, v)| v.len()).sum(),
@@ -651,6 +663,14 @@ pub fn c13_monitor(w: &Workload, obs: &Obs) -> Vec<Verdict> {
                         let ok = matches!(c, Chunk::Heartbeat { .. } | Chunk::Sack { .. } | Chunk::CookieAck | Chunk::ForwardTsn { .. } | Chunk::Reconfig);
                         if !ok && !matches!(c, Chunk::Data { .. }) {
                             push("chatter_after_quiescence", format!("t={} {}: {} after everything was acknowledged", ev.t_ms, ev.from.name(), c.name()));
+                        }
+                        // a FORWARD TSN may answer a late (overtaken) SACK, but it must not keep coming
+                        // once the peer's cumulative ack has passed everything that was sent
+                        if matches!(c, Chunk::ForwardTsn { .. }) {
+                            fwd_after_quiescence[s] += 1;
+                            if fwd_after_quiescence[s] == 4 {
+                                push("forward_tsn_repeated_after_quiescence", format!("t={} {}: fourth FORWARD TSN after everything was acknowledged", ev.t_ms, ev.from.name()));
+                            }
                         }
                     }
                 }
